@@ -24,11 +24,14 @@ def c01(tier, seed):
     w = n(tier, 150, 2000)
     # frozen clock => acceptance waits must be zero, or a controlling agent never nominates a srflx/prflx remote
     runs = [dict(cfg=c, traces=w, drain=True, notime=True, zerowait=True, preds=C01_PREDS) for c in ("p11", "pnat", "pnatc", "p21n", "prst", "p22")]
-    runs[0]["scheds"] = ["c01_triggered_check_after_budget"]
+    runs[0]["scheds"] = ["c01_triggered_check_after_budget", "c01_late_answer_after_budget", "c01_peer_checks_are_not_my_timer"]
     # p22 has a pair that is the lower-priority one on BOTH sides (in p21n the controlling side's two local host candidates tie)
     runs[5]["scheds"] = ["c01_better_pair_validates_while_nominating"]
     runs.append(dict(cfg="poneway", traces=n(tier, 60, 500), drain=True, notime=True, preds=C01_PREDS))
     runs.append(dict(cfg="prole", traces=n(tier, 60, 500), drain=True, notime=True, preds=C01_PREDS))
+    # loss above the retry budget: what is excused is counted on the wire (WithinBudget), not read off the agents' pair states
+    for c in ("plossy", "plossy21"):
+        runs.append(dict(cfg=c, traces=n(tier, 150, 2000), drain=True, notime=True, zerowait=True, preds=C01_PREDS))
     plan = {"runs": runs,
             "mc": [("p11", ["Mirror", "SelValidated"], n(tier, {"MaxTicks": 2, "MaxLoss": 1, "MaxDup": 0}, {"MaxTicks": 2, "MaxLoss": 1, "MaxDup": 1})),
                    ("pnat", ["Mirror"], None)],
